@@ -12,11 +12,15 @@ rc = KaniUnit("c02_rc", CORE, modules=[dict(file=COST, src="c07_cost.rs")],
                          H("c07_enn_contract", "complete", "the estimate clip: enforce_non_negative r >= 0 (heuristic term never negative)", timeout=120)])
 al = VerusUnit("al_astar", "al_astar", rlimit=60)
 cm = VerusUnit("c07_costmodel", "c07_costmodel", rlimit=30)
-UNITS = [al, cm, rc]
+sp = VerusUnit("c02_speed", "c02_speed", rlimit=30)
+UNITS = [al, cm, sp, rc]
 EXPLANATION = ("NOT optimality. Decided: the relaxation mechanism of run_a_star as contracts on the verbatim driver (Verus): a label is replaced only by a strictly smaller cost-so-far equal to the near vertex' "
                "label plus the edge's total cost; the vertex is re-queued with f = g + weighted estimate and its queue priority is never worse than that f (invariant Q: catches push_increase/push_decrease "
                "mix-ups and flipped comparisons); advance_search hands out a queued vertex of least f-score (assumed contract of the priority_queue crate + ReverseCost's order reversal, proved by Kani); "
-               "the estimate is costed by cost_estimate (>= 0) on the traversal model's estimated state (SearchInstance::estimate_traversal_cost, Verus)")
+               "the estimate is costed by cost_estimate (>= 0) on the traversal model's estimated state (SearchInstance::estimate_traversal_cost, Verus); "
+               "time component of the heuristic (unit c02_speed, Verus on the verbatim speed-table model): get_max_speed returns a positive upper bound of the table that occurs in it; the engine built by "
+               "SpeedTraversalEngine::new carries that bound (engine_wf); traverse_edge adds length / the edge's OWN table speed, estimate_traversal adds straight-line length / max_speed; lemmas: for equal length the "
+               "estimate is never above the time at any table speed, and along any route the summed edge times are >= the estimate for the summed length (induction)")
 NOT_DECIDED = ("least total cost itself (global Dijkstra/A* argument); admissibility of the great-circle heuristic (transcendental functions, premise about the network); "
-               "SearchAlgorithm dispatch (Dijkstra = weight factor 0, query override) and CostModelService::build (serde_json); get_max_speed")
+               "SearchAlgorithm dispatch (Dijkstra = weight factor 0, query override) and CostModelService::build (serde_json); that the great-circle length is a lower bound of the network length (data premise)")
 ASSUMPTIONS = ["priority_queue crate: push/push_increase/pop semantics as stated in the shim", "A-REAL (costs as extended reals)"]
